@@ -13,6 +13,8 @@ import PyodaModel.Codec
 import PyodaProofs.Basic
 import PyodaProofs.C14Lemmas
 import PyodaProofs.C14Transition
+import PyodaProofs.C14Composite
+import PyodaProofs.C14Zone
 
 namespace Pyoda.C14
 open Pyoda Pyoda.Codec
@@ -141,6 +143,35 @@ theorem transition_subtick_truncates (v : Instant) (hn : C03.Norm v.dur) (hv : C
   have : (truncTick v).dur.nod = v.dur.nod := by rw [heq]
   simp only [truncTick] at this
   omega
+
+/-! ## composite values (strings inline) -/
+
+/-- every year offset `_ZoneYearOffset._ctor` accepts whose time of day is a whole number of milliseconds -/
+theorem read_write_yearOffset (y : ZoneYearOffset) (h : YearOffsetDom y) (rest : Bytes) :
+    ∃ bs, writeYearOffset y = .ok bs ∧ readYearOffset (bs ++ rest) = .ok (y, rest) :=
+  readYearOffset_writeYearOffset y h rest
+
+theorem read_write_alternatingMap (m : AlternatingMap) (h : MapDom m) (rest : Bytes) :
+    ∃ bs, writeAlternatingMap none m = .ok (bs, none) ∧ readAlternatingMap none (bs ++ rest) = .ok (m, rest) :=
+  readAlternatingMap_writeAlternatingMap m h rest
+
+theorem read_write_recurrence (z : ZoneRecurrence) (h : RecurrenceDom z) (rest : Bytes) :
+    ∃ bs, writeRecurrence none z = .ok (bs, none) ∧ readRecurrence none (bs ++ rest) = .ok (z, rest) :=
+  readRecurrence_writeRecurrence z h rest
+
+/-- a whole precalculated zone (any number of adjoining periods, optional tail map, strings inline): the decoder
+    returns the zone that was written and consumes exactly its bytes -/
+theorem read_write_precalculatedZone (z : PrecalculatedZone) (h : ZoneDom z) (rest : Bytes) :
+    ∃ bs, writePrecalculated none z = .ok (bs, none) ∧ readPrecalculatedData none z.id (bs ++ rest) = .ok (z, rest) :=
+  readPrecalculated_writePrecalculated z h rest
+
+example : ZoneDom ⟨[85, 84, 67], [⟨[85, 84, 67], Instant.beforeMin, Instant.afterMax, ⟨0⟩, ⟨0⟩⟩], none⟩ := by
+  refine ⟨by decide, ⟨_, _, rfl, ?_, Or.inl rfl, trivial⟩, trivial⟩
+  exact ⟨rfl, ⟨by decide, by decide⟩, ⟨by decide, by decide⟩, ⟨by decide, by decide⟩,
+    ⟨Or.inr (Or.inl rfl), Or.inl rfl, by decide⟩, by decide⟩
+
+example : YearOffsetDom ⟨.wall, 3, -1, 7, false, 7200000000000, false⟩ := by
+  refine ⟨by decide, Or.inr (by decide), by decide, by decide, by decide, by decide⟩
 
 example : TransDom (some ⟨⟨0, 0⟩⟩) ⟨⟨5, 28800000000000⟩⟩ :=
   ⟨Or.inr (Or.inr ⟨⟨by decide, by decide⟩, ⟨by decide, by decide⟩, by decide⟩),
